@@ -96,7 +96,7 @@ PROPS = {
                     "scheduler (go build -overlay) is not built - real concurrent runs are checked against all sequential orders instead"],
     },
     "C12": {
-        "gens": [],
+        "gens": ["EnvFlow"],
         "lean": "Anko.Props.C12",
         "streams": [{"name": "envapi", "n_quick": 1500, "n_thorough": 30000}],
         "trusted": ["the heap-of-scopes model lean/Anko/Model/EnvApi.lean mirrors env/*.go (validated each run: every return value of every call and the full final "
@@ -140,7 +140,7 @@ PROPS = {
                     "*_iteration_after_cancel, cancel_is_sticky); the remaining work is the expression in progress"],
     },
     "C07": {
-        "gens": ["Operators"],
+        "gens": ["Operators", "CallFlow"],
         "lean": "Anko.Props.C07",
         "streams": [{"name": "order", "n_quick": 2500, "n_thorough": 40000},
                     {"name": "vm", "n_quick": 2000, "n_thorough": 40000}],
